@@ -401,7 +401,11 @@ def run_cvc5(smt2, timeout_ms=None):
         p = subprocess.run([CVC5_BIN, '--tlimit', str(timeout_ms), path],
                            capture_output=True, text=True, timeout=timeout_ms / 1000 + 5)
         out = p.stdout.strip().split('\n')[0] if p.stdout.strip() else ''
-        return out
+        if out in ('unsat', 'sat', 'unknown'):
+            return out
+        if 'Parse Error' in out or 'error' in out.lower():
+            return 'not-parsed-by-cvc5'
+        return 'no-answer'
     except Exception:
         return 'error'
     finally:
@@ -573,6 +577,7 @@ def verify_function(c, registry=REGISTRY, timeout_ms=None):
     axioms = literal_axioms() + list(ctx.axioms)
     t1 = time.time()
     retries_left = 6
+    crosschecked = 0
     for ob in ctx.obligations:
         verdict, backend, dt, model, reason = solve_one(ob, axioms, timeout_ms,
                                                         first_opts=c.ghost.get('solver_first'))
@@ -585,9 +590,18 @@ def verify_function(c, registry=REGISTRY, timeout_ms=None):
             dt += dt2
             if v2 != 'unknown':
                 verdict, backend, model, reason = v2, b2 + '(retry)', model2, reason2
+        cross = None
+        if verdict == 'proved' and backend.startswith('z3') and os.environ.get('VERIF_CROSSCHECK') == '1' \
+                and crosschecked < 25:
+            # thorough tier: second opinion of cvc5 on obligations z3 discharged (a `sat` is a checker error)
+            crosschecked += 1
+            try:
+                cross = run_cvc5(_mk_solver(ob, axioms, 1000, {}).to_smt2(), timeout_ms=4000)
+            except Exception:
+                cross = 'error'
         res.obligations.append(dict(id=ob.id, kind=ob.kind, text=ob.text, line=ob.lineno, src=ob.src,
                                     verdict=verdict, backend=backend, time_s=round(dt, 4),
-                                    model=model_summary(model, ctx), reason=reason))
+                                    model=model_summary(model, ctx), reason=reason, cvc5_cross=cross))
         if verdict == 'refuted' and model is not None and c.mode == 'full' and \
                 not any(o.get('replay') for o in res.obligations):
             try:
